@@ -224,6 +224,21 @@ def oracle_restart_valid(args):
 ORACLES = {"restart_valid": oracle_restart_valid, "rk4_witness": oracle_rk4_witness, "step": oracle_step, "run": oracle_run, "collapse": oracle_collapse}
 
 
+def _rk4_blowup_behind_exception(spec, obs):
+    """a linear-rk4 run that RAISED (A-FSSH asserts on its moments, eigh refuses NaN, ...): is it the listed finding - the RK4 scheme
+    leaving its stability region, rho growing without bound, everything downstream going to inf/NaN - and nothing else? Then the
+    same run with a finer electronic sub-step is completely valid (thorough seed 81: |rho| = 2253 after 210 steps with masses ~2,
+    moments NaN, `assert` in direction_of_rescale; valid at max_electronic_dt / 64)"""
+    if "exception" not in obs or spec.get("integ") != "linear-rk4":
+        return False
+    e0 = float(spec.get("max_edt", 0.1))
+    for k in (4.0, 16.0, 64.0, 256.0):
+        ok2, obs2, _r, _t = oracle_run(dict(spec, max_edt=e0 / k, _refining=True))
+        if ok2:
+            return True
+    return False
+
+
 def run(ctx):
     ctx.rule = ("single propagate_electronics calls on fake electronics with N=2..8 states, n=1..3 dims, pure/mixed/basis "
                 "rho, dt 0.1..20, both integrators (eigh output captured and handed to the model); whole runs of all classes "
@@ -332,7 +347,8 @@ def run(ctx):
         if not ok:
             # the listed finding is exactly: linear-rk4, Hermiticity and trace exact, and the positivity/purity defect vanishes
             # when the electronic sub-step is refined (truncation error of the non-unitary RK4 scheme); anything else is not it
-            sig = "rk4-not-unitary" if obs.get("only_rk4_truncation") else "invalid-state-in-run:%s:%s" % (cls, spec["integ"])
+            sig = "rk4-not-unitary" if (obs.get("only_rk4_truncation") or _rk4_blowup_behind_exception(spec, obs)) \
+                else "invalid-state-in-run:%s:%s" % (cls, spec["integ"])
             ctx.oracle_fail(sig, "run", spec, obs, req, text)
         if obs.get("defect") is not None and spec["integ"] == "linear-rk4":
             ctx.monitor("max_rk4_positivity_purity_defect_in_runs", float(obs["defect"]))
